@@ -119,6 +119,11 @@ func removeSourcePrecedence(rbacIxns []*rbacIntention, intentionDefaultAction in
 			// [j] is the thing to maybe NOT [i] from
 			if ixnSourceMatches(rbacIxns[i].Source, rbacIxns[j].Source) {
 				rbacIxns[j].NotSources = append(rbacIxns[j].NotSources, rbacIxns[i].Source)
+			} else if ixnSourceMatches(rbacIxns[j].Source, rbacIxns[i].Source) {
+				// [i] has higher precedence (e.g. it names the destination exactly
+				// while [j] is for the wildcard destination) and its source
+				// includes every caller [j] matches, so [j] never decides.
+				rbacIxns[j].Skip = true
 			}
 		}
 		if rbacIxns[i].Action == intentionDefaultAction {
